@@ -311,6 +311,162 @@ theorem recovery_id_exact (b : Nat) (h : b < 128) : int8OfByte b = b := by
 
 /-! ## the monitor accepts every model output; non-vacuity -/
 
+
+theorem isStrictAsc_of_pairwise : ∀ (l : List Nat), l.Pairwise (· < ·) → isStrictAsc l = true
+  | [], _ => rfl
+  | [_], _ => rfl
+  | a :: b :: rest, h => by
+    rw [List.pairwise_cons] at h
+    simp only [isStrictAsc, Bool.and_eq_true, decide_eq_true_eq]
+    exact ⟨h.1 b (by simp), isStrictAsc_of_pairwise (b :: rest) h.2⟩
+
+theorem map_finalIndex_isort (operating : List Nat) (hn : operating.Nodup) :
+    (isort operating).map (finalIndex operating) = List.range' 1 (isort operating).length := by
+  apply List.ext_getElem
+  · simp
+  · intro i h1 h2
+    simp only [List.getElem_map, List.getElem_range', finalIndex]
+    rw [(nodup_isort operating hn).idxOf_getElem]
+    omega
+
+/-- The `final` monitor accepts the model's own output, for every seed, selection and
+    duplicate-free operating list of `uint8` member indexes (what the driver prints for a
+    `final` op is exactly this entry list). -/
+theorem holdsFinal_model (n quorum seed : Nat) (sel operating ops : List Nat) (idx : List (Nat × Nat))
+    (hn : operating.Nodup) (hlen : operating.length ≤ 255) (hm : ∀ m ∈ operating, m < 256)
+    (h : finalSigningGroup n quorum sel operating = some (ops, idx)) :
+    holdsFinal sel operating ops
+      (idx.map fun p => (p.1, p.2, toIndex seed (sKey (storedKeys seed operating) p.2),
+        sIndex (storedKeys seed operating) (toKey seed p.1))) = true := by
+  unfold finalSigningGroup at h
+  split at h
+  · cases h
+  · simp only [Option.some.injEq, Prod.mk.injEq] at h
+    obtain ⟨rfl, rfl⟩ := h
+    have hmem : ∀ x, x ∈ isort operating ↔ x ∈ operating := mem_isort operating
+    unfold holdsFinal
+    simp only [List.map_map, Function.comp_def, List.map_id', List.length_map]
+    rw [isStrictAsc_of_pairwise _ (isort_strict operating hn), map_finalIndex_isort operating hn]
+    simp only [Bool.true_and, beq_self_eq_true, Bool.and_true, Bool.and_eq_true, List.all_eq_true,
+      List.contains_eq_mem, decide_eq_true_eq, List.mem_map, beq_iff_eq]
+    refine ⟨⟨fun x hx => (hmem x).1 hx, fun x hx => (hmem x).2 hx⟩, ?_⟩
+    rintro _ ⟨m, hm', rfl⟩
+    have hmo := (hmem m).1 hm'
+    exact ⟨final_index_recovers_member seed operating m hmo (hm m hmo),
+      dkg_key_resolves_to_final_index seed operating m hmo hlen⟩
+
+
+/-! ## signing states: admission -/
+
+theorem sAdmitted_spec (self sess : Nat) (g : Group) (seats : List Nat) (m : Msg)
+    (h : sAdmitted self sess g seats m = true) :
+    m.kind < 10 ∧ m.sender ≠ self ∧ validMembership seats m.sender m.op = true ∧
+      g.isOperating m.sender = true ∧ m.sess = sess := by
+  simp only [sAdmitted, shouldAccept, Bool.and_eq_true, decide_eq_true_eq, Bool.not_eq_true',
+    beq_eq_false_iff_ne, beq_iff_eq] at h
+  obtain ⟨⟨a, ⟨b, c⟩, d⟩, e⟩ := h
+  exact ⟨a, b, c, d, e.symm⟩
+
+theorem sfoldl_hist (self sess : Nat) (g : Group) (seats : List Nat) (evs rest : List Ev) (s : St)
+    (hs : ∀ m ∈ s.hist, sAdmitted self sess g seats m = true ∧ Ev.recv m ∈ evs)
+    (hsub : ∀ e ∈ rest, e ∈ evs) :
+    ∀ m ∈ (rest.foldl (sStep self sess g seats) s).hist,
+      sAdmitted self sess g seats m = true ∧ Ev.recv m ∈ evs := by
+  induction rest generalizing s with
+  | nil => exact hs
+  | cons e rest ih =>
+    simp only [List.foldl_cons]
+    apply ih _ _ (fun x hx => hsub x (List.mem_cons_of_mem _ hx))
+    cases e with
+    | recv x =>
+      intro m hm
+      simp only [sStep] at hm
+      split at hm
+      · rename_i hc
+        rcases List.mem_append.1 hm with h | h
+        · exact hs m h
+        · simp at h; subst h; exact ⟨hc.2, hsub _ (by simp)⟩
+      · exact hs m hm
+    | next =>
+      intro m hm
+      simp only [sStep] at hm
+      split at hm <;> exact hs m hm
+
+/-- **signing_history_only_admitted**: in every signing state, whatever is delivered, only messages
+    of the attempt's session (message + attempt number), from a member of the final group that is
+    included in the attempt and is not the receiver, with the network key of the operator seated at
+    the claimed index, enter the history. -/
+theorem signing_history_only_admitted (self sess : Nat) (g : Group) (seats : List Nat) (evs : List Ev) :
+    ∀ m ∈ (sRun self sess g seats evs).hist,
+      m.kind < 10 ∧ m.sender ≠ self ∧ validMembership seats m.sender m.op = true ∧
+        g.isOperating m.sender = true ∧ m.sess = sess := by
+  intro m hm
+  exact sAdmitted_spec _ _ _ _ _
+    (sfoldl_hist self sess g seats evs evs ⟨0, []⟩ (by simp) (fun _ h => h) m hm).1
+
+/-- **outsiders_and_other_attempts_never_reach_tss**: the messages handed to the tss-lib signing
+    updates (`receivedMessages[T]`) carry the attempt's session id and come from members of the
+    final group (`1..n`) that are not excluded from the attempt, never from the member itself. -/
+theorem outsiders_and_other_attempts_never_reach_tss (n self sess : Nat) (excl seats : List Nat)
+    (evs : List Ev) (k : Nat) :
+    ∀ m ∈ received (sRun self sess (memberGroup n self excl) seats evs).hist k,
+      m.sess = sess ∧ m.sender ∉ excl ∧ m.sender ≠ self ∧ 1 ≤ m.sender ∧ m.sender ≤ n ∧
+        validMembership seats m.sender m.op = true := by
+  intro m hm
+  obtain ⟨_, hself, hval, hop, hsess⟩ :=
+    signing_history_only_admitted self sess _ seats evs m (received_subset _ k m hm).1
+  rw [memberGroup, isOperating_exclude, isOperating_new] at hop
+  simp only [Bool.and_eq_true, decide_eq_true_eq, Bool.or_eq_true, beq_iff_eq,
+    Bool.not_eq_true', List.contains_eq_mem, decide_eq_false_iff_not] at hop
+  refine ⟨hsess, ?_, hself, hop.1.1, hop.1.2, hval⟩
+  rcases hop.2 with h | h
+  · exact absurd h hself
+  · exact h
+
+/-- The `srecv` monitor accepts the model's own output for every input. -/
+theorem holdsSrecv_model (self sess : Nat) (g : Group) (seats : List Nat) (evs : List Ev)
+    (hseq : ∀ (i : Nat) (m : Msg), evs[i]? = some (Ev.recv m) → m.seq = i) :
+    holdsSrecv self sess g seats evs (sRun self sess g seats evs).idx
+      (sCanTransition (sRun self sess g seats evs).idx g (sRun self sess g seats evs).hist)
+      ((List.range 10).map fun k =>
+        (received (sRun self sess g seats evs).hist k).map fun m => (m.sender, m.seq)) = true := by
+  generalize hrun : sRun self sess g seats evs = s
+  have hh : ∀ m ∈ s.hist, sAdmitted self sess g seats m = true ∧ Ev.recv m ∈ evs := by
+    rw [← hrun]; exact sfoldl_hist self sess g seats evs evs ⟨0, []⟩ (by simp) (fun _ h => h)
+  unfold holdsSrecv
+  rw [Bool.and_eq_true]
+  constructor
+  · rw [List.all_eq_true]
+    intro k hk
+    simp only [List.length_map, List.length_range, List.mem_range] at hk
+    simp only [getD_map_range _ _ 10 k hk, Bool.and_eq_true]
+    constructor
+    · rw [List.all_eq_true]
+      intro p hp
+      obtain ⟨m, hm, rfl⟩ := List.mem_map.1 hp
+      obtain ⟨hmh, hmk⟩ := received_subset s.hist k m hm
+      obtain ⟨i, hi⟩ := List.mem_iff_getElem?.1 (hh m hmh).2
+      have := hseq i m hi
+      subst this
+      simp [hi, hmk, (hh m hmh).1]
+    · apply nodupB_of_nodup
+      rw [List.map_map]
+      exact received_senders_nodup s.hist k
+  · unfold sCanTransition
+    cases hk : sKindOf s.idx with
+    | none => rfl
+    | some k =>
+      have hk10 : k < 10 := by
+        unfold sKindOf at hk
+        split at hk
+        · simp at hk; omega
+        · split at hk
+          · simp at hk; omega
+          · simp at hk
+      dsimp only
+      rw [getD_map_range _ _ 10 k hk10]
+      simp
+
 example : finalSigningGroup 5 3 [10, 20, 30, 40, 50] [5, 1, 3] =
     some ([10, 30, 50], [(1, 1), (3, 2), (5, 3)]) := by decide
 example : storedKeys 1000 [5, 1, 3] = [1001, 1003, 1005] := by decide
